@@ -17,7 +17,7 @@ CHECK = {
     "id": "C20",
     "level": "exploration",
     "rule": ("mirror stage: one case = one generated program of C API calls: every entry of the mirror table "
-             "(127 entries covering all functions declared in manifoldc.h) once in a seeded order plus `extra` "
+             "(122 entries covering all 298 functions declared in manifoldc.h) once in a seeded order plus `extra` "
              "random entries, over growing pools of twin values (C twin built only through manifoldc.h, C++ twin by "
              "the C++ call the C function names, same generated arguments). After every step the twins are compared: "
              "meshes field by field through the C accessors into exact-size heap buffers (runOriginalID by dense rank "
